@@ -475,4 +475,60 @@ def doStreaming : List String := [
   "}"
 ]
 
+/-- skeleton of `.harvestPayload` (daemon/internal/newrelic/processor.go): conditions, assignments, calls (logging left out), channel operations, returns -/
+def harvestPayload : List String := [
+  "defer duc.wg.Done()",
+  "cmd := collector.RpmCmd{Name: p.Cmd(), Collector: args.collector, License: args.license, RunID: args.id.String(), RequestHeadersMap: args.RequestHeadersMap, MaxPayloadSize: args.maxPayloadSize}",
+  "cs := collector.RpmControls{AgentLanguage: args.agentLanguage, AgentVersion: args.agentVersion, Collectible: collector.CollectibleFunc(func(){…})}",
+  "reply := args.client.Execute(&cmd, cs)",
+  "if nil==reply.Err {",
+  "addDataUsage(duc.duc, cmd.Name, len(cmd.Data), len(reply.Body))",
+  "return",
+  "}",
+  "addDataUsage(duc.duc, cmd.Name, 0, len(reply.Body))",
+  "if args.blocking {",
+  "return",
+  "}",
+  "args.harvestErrorChannel <- HarvestError{Reply: reply, id: args.id, data: p}"
+]
+
+/-- skeleton of `.considerHarvestPayload` (daemon/internal/newrelic/processor.go): conditions, assignments, calls (logging left out), channel operations, returns -/
+def considerHarvestPayload : List String := [
+  "if p.Empty() {",
+  "return",
+  "}",
+  "duc.wg.Add(1)",
+  "if args.blocking {",
+  "harvestPayload(p, args, duc)",
+  "}",
+  "else {",
+  "go harvestPayload(p, args, duc)",
+  "}"
+]
+
+/-- skeleton of `.newAnalyticsEvents` (daemon/internal/newrelic/analytics_events.go): conditions, assignments, calls (logging left out), channel operations, returns -/
+def newAnalyticsEvents : List String := [
+  "h := make(analyticsEventHeap, 0, max)",
+  "return &analyticsEvents{numSeen: 0, events: &h, failedHarvests: 0}"
+]
+
+/-- skeleton of `analyticsEvents.AddEvent` (daemon/internal/newrelic/analytics_events.go): conditions, assignments, calls (logging left out), channel operations, returns -/
+def eventsAddEvent : List String := [
+  "if len(*events.events)<cap(*events.events) {",
+  "events.events.Push(e)",
+  "if len(*events.events)==cap(*events.events) {",
+  "heap.Init(events.events)",
+  "}",
+  "return",
+  "}",
+  "if 0==cap(*events.events) {",
+  "return",
+  "}",
+  "if e.priority.IsLowerPriority((*events.events)[0].priority) {",
+  "return",
+  "}",
+  "heap.Pop(events.events)",
+  "heap.Push(events.events, e)"
+]
+
 end Reviewed
